@@ -13,7 +13,7 @@ import (
 
 func main() {
 	r := ev.New("C16", "exploration",
-		"CenterVertically/ReplaceLastLine on every geometry: prefix 0..P lines (0 = empty string), centred 1..C, suffix 0..S, height 2..H with distinct line tokens; every frame the real UI emits for terminal heights {2,3,4,5,9} (quick) / 2..9 (thorough) x 4 start commands x every key sequence of length <=2 (quick) / <=3 (thorough) over {j,k,space,1,Enter,:,x,Esc,o,g} plus resizes, an epilogue of keys after each and a failing viewer; the built servitor program (package main unchanged) on pseudo-terminals of 5 (quick) / 8 (thorough) sizes with 13 keys before and after a resize; "+
+		"CenterVertically/ReplaceLastLine on every geometry: prefix 0..P lines (0 = empty string), centred 1..C, suffix 0..S, height 2..H with distinct line tokens; 22 heights from 255 to 65535 around powers of two x prefix {0,1,3,2000} x centred {1,2,40} x suffix {0,2,1500} lines; every frame the real UI emits for terminal heights {2,3,4,5,9} (quick) / 2..9 (thorough) x 4 start commands x every key sequence of length <=2 (quick) / <=3 (thorough) over {j,k,space,1,Enter,:,x,Esc,o,g} plus resizes, an epilogue of keys after each and a failing viewer; the built servitor program (package main unchanged) on pseudo-terminals of 5 (quick) / 8 (thorough) sizes with 13 keys before and after a resize; "+
 			"distinct_nontrivial counts geometries where the centred block is shorter than the screen (so buffers must be computed)")
 	if *ev.FlagReplay != "" {
 		var d struct {
@@ -78,6 +78,19 @@ func main() {
 					if h > ch {
 						r.Distinct(fmt.Sprint(ph, ch, sh, h))
 					}
+				}
+			}
+		}
+	}
+	// tall terminals: heights around powers of two up to 65535 (the largest a terminal can
+	// report), with short and long content on either side
+	for _, h := range []int{255, 256, 257, 1023, 1024, 1025, 2047, 2048, 2049, 2050, 2051, 2052, 2053, 3000, 4095, 4096, 4097, 4101, 8193, 32769, 65534, 65535} {
+		for _, ph := range []int{0, 1, 3, 2000} {
+			for _, ch := range []int{1, 2, 40} {
+				for _, sh := range []int{0, 2, 1500} {
+					checkGeometry(r, ph, ch, sh, h)
+					r.Eval(1)
+					r.Distinct(fmt.Sprint(ph, ch, sh, h))
 				}
 			}
 		}
